@@ -4,11 +4,11 @@ from .mir import (Origins, NotLoopFree, name_matches, op_place, path_words, plac
                   rvalue_operands, show, strip_generics, strip_identity, switch_info, term_calls,
                   term_has_call, walk)
 
-TRACING_EXP = ("debug!", "trace!", "info!", "warn!", "error!", "event!", "instrument", "#[instrument]")
+TRACING_EXP = ("debug!", "trace!", "info!", "warn!", "error!", "event!")
 
 
 def is_tracing(call):
-    return call.exp in TRACING_EXP or (call.fn or "").startswith("tracing::") or (call.fn or "").startswith("tracing_core::")
+    return (call.exp is not None and call.exp.split("::")[-1] in TRACING_EXP) or (call.fn or "").startswith("tracing::") or (call.fn or "").startswith("tracing_core::")
 
 
 def owner_fn(prog, body):
